@@ -159,8 +159,9 @@ def ccyN (a b c : Pt) : Int :=
   - ((b.x - a.x) * (b.x - a.x) + (b.y - a.y) * (b.y - a.y)) * (c.x - a.x)
 
 /-- reported circumcentre `c` of face `f` within tolerance of the exact one `O = a + u/(2D)`:
-`|2D(c-a) - u|² · D² · 2^(2k) ≤ |u|² · L⁴` with `L²` the longest squared edge (conditioning
-`L²/|D|` times the radius) -/
+each component of the error is at most `2^-k · (extent + κ²·L)` with `L` the longest edge,
+`κ = L²/|D|` the conditioning of the face and `extent` the largest coordinate (the result cannot be
+more precise than its own unit in the last place).  Everything is scaled by `2|D|`. -/
 def centerOK (s : St) (f : Nat) (c : Pt) (k : Nat) : Bool :=
   let e := s.fe f
   let a := s.A e; let b := s.B e; let cc := s.C e
@@ -170,7 +171,12 @@ def centerOK (s : St) (f : Nat) (c : Pt) (k : Nat) : Bool :=
   let ex := 2 * dd * (c.x - a.x) - ux
   let ey := 2 * dd * (c.y - a.y) - uy
   let l2 := max (dist2 a b) (max (dist2 b cc) (dist2 cc a))
-  decide ((ex * ex + ey * ey) * (dd * dd) * 2 ^ (2 * k) ≤ (ux * ux + uy * uy + dd * dd) * (l2 * l2))
+  let lr : Int := (Nat.sqrt l2.natAbs + 1 : Nat)
+  let ext := s.extent [c]
+  let da : Int := dd.natAbs
+  if da == 0 then false else
+  let tol := (2 * da * ext + 2 * (l2 * l2) * lr / da) / 2 ^ k
+  decide (ex.natAbs ≤ tol.natAbs) && decide (ey.natAbs ≤ tol.natAbs)
 
 /-! ### weights -/
 
